@@ -525,6 +525,7 @@ def run(ctx):
     trait_productions(ctx)
     short_circuit_second_operand(ctx)
     printed_operations_keep_their_grouping(ctx)
+    escape_sequences_follow_the_standard(ctx)
 
     # ------------------------------------------------------------ R07.6
     n_c = 0
@@ -1228,3 +1229,47 @@ def printed_operations_keep_their_grouping(ctx):
             ctx.ob("R07.15", "output|type-arm %s|parenthesised" % "/".join(str(l) for l in labels), ok, f.loc(stmts[0]),
                    "printed as ( a ? b : c ) unconditionally" if ok else "the three-operand arm is not unconditionally parenthesised")
     ctx.floor("R07.15", "three-operand arms of CPPExpression::output", m, 1)
+
+
+SIMPLE_ESCAPES = {"a": 7, "b": 8, "f": 12, "n": 10, "r": 13, "t": 9, "v": 11, "e": 27, "\\": 92, "'": 39, '"': 34, "?": 63}
+
+
+def escape_sequences_follow_the_standard(ctx):
+    """R07.16: the value of a character literal is decided in scan_escape_sequence().  Two tables are the standard's, not
+    the code base's: (1) every simple escape that returns a constant returns the standard one (`\\n` = 10, ...; `\\e` = 27 is
+    GCC's); (2) an octal escape begins with ANY of the digits 0-7: all eight labels lead to the one arm that goes on
+    reading digits - `\\0` is just the shortest of them.  (Seed S9-C07: `case '0': return 0;` split off; '\\012', '\\033'
+    were recorded as 0.)"""
+    db = ctx.db
+    ctx.rule("R07.16", "in scan_escape_sequence the labels '0'..'7' share one switch arm, and that arm reads further characters; each arm that returns a constant for a simple escape returns the standard value")
+    fs = [g for g in db.functions if g.name == "CPPPreprocessor::scan_escape_sequence"]
+    if not fs:
+        ctx.broken("R07.16: scan_escape_sequence not found")
+        return
+    f = fs[0]
+    sws = [y for y in f.walk() if y.get("k") == "switch"]
+    if not sws:
+        ctx.broken("R07.16: scan_escape_sequence has no switch")
+        return
+    arms = switch_arms(sws[0])
+    octal = set(range(ord("0"), ord("8")))
+    homes = [(labels, stmts) for labels, stmts in arms if octal & {l for l in labels if isinstance(l, int)}]
+    together = len(homes) == 1 and octal <= set(homes[0][0])
+    reads = together and any(y.get("k") == "call" and callee_short(y) in ("peek", "get") for st in homes[0][1] for y in walk(st))
+    ctx.ob("R07.16", "scan_escape_sequence|octal-digits-share-one-arm", bool(together and reads), f.loc(homes[0][1][0]) if homes and homes[0][1] else f.loc(),
+           "labels '0'..'7' lead to one arm that reads the following digits" if together and reads else
+           "the octal digits are split over %d arms: %s" % (len(homes), [sorted(chr(l) for l in ls if isinstance(l, int) and l in octal) for ls, _ in homes]))
+    n = 0
+    for labels, stmts in arms:
+        chars = [chr(l) for l in labels if isinstance(l, int) and 0 < l < 128]
+        simple = [ch for ch in chars if ch in SIMPLE_ESCAPES]
+        if not simple:
+            continue
+        rets = [r for st in stmts for r in walk(st) if r.get("k") == "ret"]
+        consts = [const_int(r.get("e")) for r in rets]
+        if not rets or any(c is None for c in consts):
+            continue
+        n += 1
+        ok = len(simple) == 1 and all(c == SIMPLE_ESCAPES[simple[0]] for c in consts)
+        ctx.ob("R07.16", "scan_escape_sequence|\\%s|standard-value" % simple[0], ok, f.loc(stmts[0]), "\\%s -> %s (standard: %s)" % (simple[0], consts, SIMPLE_ESCAPES[simple[0]]))
+    ctx.floor("R07.16", "simple escapes returning a constant", n, 7)
